@@ -18,7 +18,7 @@ LABELS = {"sorted": [0, 0, 1, 1], "blocks-unsorted": [1, 1, 0, 0], "interleaved"
 
 
 def bounds(tier):
-    return dict(statistics=4, partitions="all compositions", ivector_partitions="1..9", C_D_r="ISV (2,1,1), JFA (1,1,1)")
+    return dict(statistics=4 if tier == "quick" else 5, partitions="all compositions", ivector_partitions="1..9", C_D_r="ISV (2,1,1), JFA (1,1,1)")
 
 
 def sc_fa_bag(B, kind, labels, comp, policy, isolated):
@@ -135,9 +135,11 @@ def job_red(P):
 
 def jobs(tier):
     out = [("ivector-reduction", "job_red", {})]
+    if tier == "thorough":
+        LABELS.update({"five-sorted": [0, 0, 1, 1, 1], "five-mixed": [1, 0, 2, 0, 1]})
     for kind in ("isv", "jfa"):
         for lname in LABELS:
-            for comp in compositions(4):
+            for comp in compositions(len(LABELS[lname])):
                 out.append(("%s-%s-%s" % (kind, lname, "+".join(map(str, comp))), "job_fa", dict(kind=kind, lname=lname, comp=comp)))
     for comp in [(1,), (2,), (1, 1), (2, 1), (1, 1, 1)] + ([(1, 2, 1), (1, 1, 1, 1, 1)] if tier == "thorough" else []):
         out.append(("ivector-%s" % "+".join(map(str, comp)), "job_iv", dict(comp=comp)))
